@@ -431,6 +431,18 @@ IntrinsicCases(f) ==
         MapCase(f, v, "intrinsic:" \o Intrinsics[k].i \o "/" \o Intrinsics[k].s,
                 <<Magic(f), "!ins_signatures", "99 " \o Intrinsics[k].s, "!ins_intrinsics", "99 " \o Intrinsics[k].i>>, IntrinsicBody(v))]
 
+\* every layout of the jump arguments: each jump-carrying intrinsic x every signature of 1..3
+\* characters over {o, t, S, _} (offset first / last / absent, time adjacent / apart / absent / twice)
+RECURSIVE SigsOver(_, _)
+SigsOver(alpha, n) == IF n = 0 THEN {""} ELSE {s \o a : s \in SigsOver(alpha, n - 1), a \in alpha}
+JumpLayouts == SetToSeq(UNION {SigsOver({"o", "t", "S", "_"}, n) : n \in 1..3})
+JumpIntrinsics == <<"Jmp()", "CountJmp()", "CondJmp(op=\"==\";type=\"int\")", "DedicatedCmpJmp(op=\"==\")">>
+JumpLayoutCases(f) ==
+    LET v == Voc(f) IN
+    FlattenSeq([k \in 1..Len(JumpIntrinsics) |-> [j \in 1..Len(JumpLayouts) |->
+        MapCase(f, v, "intrinsic:" \o JumpIntrinsics[k] \o "/" \o JumpLayouts[j],
+                <<Magic(f), "!ins_signatures", "99 " \o JumpLayouts[j], "!ins_intrinsics", "99 " \o JumpIntrinsics[k]>>, IntrinsicBody(v))]])
+
 \* other sections: [n, l (lines after the magic), b (body)]
 SectionCases(f) ==
     LET v == Voc(f)
@@ -477,6 +489,10 @@ SectionCases(f) ==
         [n |-> "enum-duplicate-name", l |-> <<"!ins_signatures", "99 S(enum=\"Foo\")", "!enum(name=\"Foo\")", "1 A", "2 A">>, b |-> <<"ins_99", "(", "A", ")", ";">>],
         [n |-> "enum-ambiguous-across", l |-> <<"!ins_signatures", "99 S", "!enum(name=\"Foo\")", "1 A", "!enum(name=\"Bar\")", "2 A">>, b |-> <<"ins_99", "(", "A", ")", ";">>],
         [n |-> "enum-no-name-value", l |-> <<"!enum(name=)", "1 A">>, b |-> Call0(v)],
+        [n |-> "enum-unclosed-quote", l |-> <<"!enum(name=\")", "1 A">>, b |-> Call0(v)],
+        [n |-> "enum-unclosed-paren", l |-> <<"!enum(name=\"Foo\"", "1 A">>, b |-> Call0(v)],
+        [n |-> "enum-empty-name", l |-> <<"!enum(name=\"\")", "1 A">>, b |-> Call0(v)],
+        [n |-> "enum-name-not-identifier", l |-> <<"!enum(name=\"3 x\")", "1 A">>, b |-> Call0(v)],
         [n |-> "enum-no-attrs", l |-> <<"!enum()", "1 A">>, b |-> Call0(v)],
         [n |-> "enum-bare", l |-> <<"!enum", "1 A">>, b |-> Call0(v)],
         [n |-> "enum-builtin-bool", l |-> <<"!enum(name=\"bool\")", "5 true", "6 maybe">>, b |-> <<"ins_99", "(", "maybe", ")", ";">>],
@@ -520,6 +536,7 @@ MapCases ==
     FlattenSeq([i \in 1..Len(MapFormatsSig) |-> EveryKth(SigCases(MapFormatsSig[i]), IF Quick THEN 3 ELSE 1)])
     \o FlattenSeq([i \in 1..Len(MapFormatsOther) |->
         IntrinsicCases(MapFormatsOther[i]) \o SectionCases(MapFormatsOther[i]) \o MagicCases(MapFormatsOther[i])])
+    \o JumpLayoutCases("anm") \o (IF Quick THEN <<>> ELSE JumpLayoutCases("ecl") \o JumpLayoutCases("msg"))
 
 \* Tiers.  thorough = the whole domain.  quick = the whole domain for ANM (the format whose
 \* language supports every construct used here), and a fixed-stride sample of it for the others;
